@@ -2554,7 +2554,7 @@ def stage_corr_int(ctx, env):
     n = ctx.scale(150, 3000)
     rng = ctx.rng("corr/int")
     I = env.integer
-    cases, lines = [], []
+    cases, lines, shape_lines = [], [], []
     for it in range(n):
         r = it % 3
         if r == 0:
@@ -2583,6 +2583,16 @@ def stage_corr_int(ctx, env):
                 impl = "raise:" + type(e).__name__
             cases.append((op, t, t2, impl))
             lines.append(sexp.dumps([op] + args))
+            if op == "intsimp" and impl.startswith("("):
+                # the real simp_full output must have the normal-form shape isNFI (closure is not yet
+                # proved in Lean for the integer normaliser)
+                shape_lines.append(sexp.dumps(["isnfishape", sexp.loads(impl)]))
+    shape_out = ctx.lean_driver(EXE, shape_lines, timeout=600) if shape_lines else []
+    for v in (shape_out or []):
+        ctx.count("isnfi:" + v)
+        if v != "T":
+            ctx.broken("correspondence:c10:isnfi", "a simp_full output does not have the normal-form shape isNFI")
+            break
     out = ctx.lean_driver(EXE, lines, timeout=1200) if lines else []
     if out is None:
         ctx.broken("correspondence:c10:driver", "model driver unavailable")
